@@ -52,6 +52,20 @@ impl Storage {
             return Ok(installation.clone());
         }
 
+        // The name is joined onto the base path: an absolute name or a `..`
+        // component would open (and create) a directory outside the storage root
+        let stays_inside = std::path::Path::new(name).components().all(|component| {
+            matches!(
+                component,
+                std::path::Component::Normal(_) | std::path::Component::CurDir
+            )
+        });
+        if !stays_inside {
+            return Err(crate::StorageError::Installation(format!(
+                "invalid installation name {name:?}: must be a relative path inside the storage directory"
+            )));
+        }
+
         let installation_path = self.base_path.join(name);
         let installation = Arc::new(Installation::open(installation_path)?);
 
